@@ -56,6 +56,7 @@ static void wrap_case(int32_t lo, int32_t hi, int32_t o, int32_t p, bool force_e
   ++n_run;
   const bool suspect = !initok || dec != o;
   if (suspect) ++n_suspect;
+  if (suspect && !force_emit && n_suspect > 20000) return;
   if (suspect || force_emit) {
     out.begin("Wrap").w32("lo", lo).w32("hi", hi).w32("o", o).w32("p", p).w32("c", corr).w32("d", dec).b("initok", initok).end();
     ++n_emitted;
@@ -166,6 +167,7 @@ static void oct_case(int q, const PredictionSchemeNormalOctahedronCanonicalizedE
   const int32_t maxq = (1 << q) - 1;
   const bool suspect = d[0] != o[0] || d[1] != o[1] || c[0] < 0 || c[1] < 0 || c[0] > maxq - 1 || c[1] > maxq - 1;
   if (suspect) ++n_suspect;
+  if (suspect && !force_emit && n_suspect > 20000) return;    // the first 20 000 suspects are evidence enough (TLC reads the whole file)
   if (suspect || force_emit) {
     out.begin("Oct").i("q", q).arr("o", std::vector<int>{o[0], o[1]}).arr("p", std::vector<int>{p[0], p[1]})
         .arr("c", std::vector<int>{c[0], c[1]}).arr("d", std::vector<int>{d[0], d[1]}).end();
